@@ -1,4 +1,5 @@
 mod area;
+mod layerops;
 mod links;
 mod modes;
 mod paint;
@@ -52,6 +53,7 @@ fn main() {
         "selection" => selection::selection(&a),
         "paint" => paint::paint(&a),
         "links" => links::links(&a),
+        "layerops" => layerops::layerops(&a),
         "modes" => modes::modes(&a),
         "igs" => igs::igs(&a),
         "rip" => rip::rip(&a),
